@@ -295,6 +295,17 @@ impl Model {
 
     /// Is socket `x` in state `st` a destination of `d`?
     pub fn targets(&self, d: &SendRec, x: &Sock, st: &SockState) -> Tri {
+        let t = self.targets_routed(d, x, st);
+        // the text is silent on what a socket bound to the loopback address reaches outside the loopback
+        // address: such a datagram is owed to nobody (and a receipt by a regular destination is not judged);
+        // what matters is that it disturbs no other datagram
+        if d.src_local && !matches!(d.class, Class::Loopback) && t == Tri::Yes {
+            return Tri::May;
+        }
+        t
+    }
+
+    fn targets_routed(&self, d: &SendRec, x: &Sock, st: &SockState) -> Tri {
         if st.port != d.dst.port() {
             return Tri::No;
         }
